@@ -112,8 +112,14 @@ def check_contraction(ch, a, b, sa, sb, axes_a, axes_b, modes, forms=True):
         # one of the modes)
         kw = {} if (not preserve and mode != "fused") else {
             "preserve_array": preserve}
-        r = must(fn, a, b, (tuple(axes_a), tuple(axes_b)), mode=mode,
-                 what=sig, **kw)
+        # (the documented default axes=2 - last two legs of a with the
+        # first two of b - is left out when that is the drawn contraction)
+        default_axes = (list(axes_a) == [a.ndim - 2, a.ndim - 1]
+                        and list(axes_b) == [0, 1] and mode != "fused")
+        pos = () if default_axes else ((tuple(axes_a), tuple(axes_b)),)
+        if default_axes:
+            ch.count("default-axes")
+        r = must(fn, a, b, *pos, mode=mode, what=sig, **kw)
         if isinstance(r, sr.FermionicArray):
             require(not (r.ndim == 0 and not preserve), sig + ":scalar-form",
                     "rank-0 array although preserve_array=False")
